@@ -6,7 +6,8 @@ From the CURRENT `symbolic.py` and `entity.py` it regenerates a first-order desc
 * `optimize_or`      which variables of the two operands are compared (with / without the `Literal` filter), by which test
                      (set equality | subset | list equality | constant) and the node returned in either case;
 * `chained_logic`    how n-ary `and_` / `or_` are nested (left | right | reversed);
-* `and_`, `or_`      the operator handed to `chained_logic`;  `not_`: `operand._invert_()` or `Not(operand)`;
+* `and_`, `or_`      the operator handed to `chained_logic`;  `&`, `|`: the operator `__and__` / `__or__` apply;
+* `not_`             `operand._invert_()` or `Not(operand)`;
 * `exists`, `for_all` the class constructed;  `contains`, `in_`: the operand order of the `Comparator`;
 * `_invert_`         as resolved along the MRO (C3 linearisation of the class statements) of `Comparator`, the term
                      classes, `AND`, `ElseIf`, `Union`, `Not`, `Exists`, `ForAll`: wrap in `Not` | the operand |
@@ -340,6 +341,35 @@ BIN_OPS = {"AND": ".and", "ElseIf": ".elseIf", "Union": ".union", "optimize_or":
 QUANT = {"Exists": ".exists_", "ForAll": ".forAll"}
 
 
+def entity_imports(tree: ast.Module) -> Dict[str, str]:
+    """local name in entity.py -> name in symbolic.py, for `from .symbolic import X [as Y]` at module level (a name that
+    is bound in any other way — `typing.Union`! — does not denote the symbolic class)"""
+    out: Dict[str, str] = {}
+    other: set = set()
+    for s in tree.body:
+        if isinstance(s, ast.ImportFrom):
+            for a in s.names:
+                local = a.asname or a.name
+                if s.level == 1 and s.module == "symbolic":
+                    out[local] = a.name
+                else:
+                    other.add(local)
+        elif isinstance(s, ast.Import):
+            for a in s.names:
+                other.add((a.asname or a.name).split(".")[0])
+    # a later import of the same local name from elsewhere shadows the symbolic one: keep only unambiguous names
+    return {k: v for k, v in out.items() if k not in other}
+
+
+_IMPORTS: Dict[str, str] = {}
+_OPERATOR_IS_MODULE = True
+
+
+def _sym(e: ast.AST) -> Optional[str]:
+    """the symbolic.py name a Name node of entity.py denotes"""
+    return _IMPORTS.get(e.id) if isinstance(e, ast.Name) else None
+
+
 def _single_return(fn: ast.FunctionDef, what: str) -> ast.expr:
     stmts = _body(fn)
     if len(stmts) == 1 and isinstance(stmts[0], ast.Return) and stmts[0].value is not None:
@@ -352,10 +382,10 @@ def translate_chain_user(fn: ast.FunctionDef) -> str:
     if fn.args.args or fn.args.vararg is None:
         raise TranslationError(f"{fn.name}: signature changed")
     r = _single_return(fn, fn.name)
-    if (isinstance(r, ast.Call) and _is_name(r.func, "chained_logic") and len(r.args) == 2 and not r.keywords
-            and isinstance(r.args[0], ast.Name) and r.args[0].id in BIN_OPS and isinstance(r.args[1], ast.Starred)
+    if (isinstance(r, ast.Call) and _sym(r.func) == "chained_logic" and len(r.args) == 2 and not r.keywords
+            and _sym(r.args[0]) in BIN_OPS and isinstance(r.args[1], ast.Starred)
             and _is_name(r.args[1].value, fn.args.vararg.arg)):
-        return BIN_OPS[r.args[0].id]
+        return BIN_OPS[_sym(r.args[0])]
     raise TranslationError(f"{fn.name}: unsupported {ast.unparse(r)}")
 
 
@@ -369,14 +399,17 @@ def translate_not(fn: ast.FunctionDef) -> str:
     if len(stmts) == 2 and isinstance(stmts[0], ast.If) and not stmts[0].orelse:
         g = stmts[0]
         if (ast.unparse(g.test) == f"not isinstance({x}, SymbolicExpression)" and len(g.body) == 1
-                and ast.unparse(g.body[0]) == f"{x} = Literal({x})"):
+                and ast.unparse(g.body[0]) == f"{x} = Literal({x})" and _IMPORTS.get("Literal") == "Literal"
+                and _IMPORTS.get("SymbolicExpression") == "SymbolicExpression"):
             stmts = stmts[1:]
     if len(stmts) == 1 and isinstance(stmts[0], ast.Return) and stmts[0].value is not None:
-        src = ast.unparse(stmts[0].value)
-        if src == f"{x}._invert_()":
+        r = stmts[0].value
+        if ast.unparse(r) == f"{x}._invert_()":
             return "true"
-        if src in (f"Not({x})", f"Not(_child_={x})"):
-            return "false"
+        if isinstance(r, ast.Call) and _sym(r.func) == "Not":
+            a = _call_args(r, ["_child_"])
+            if _is_name(a[0], x):
+                return "false"
     raise TranslationError("not_: unsupported body")
 
 
@@ -385,17 +418,17 @@ def translate_quantifier_fn(fn: ast.FunctionDef) -> str:
     if len(ps) != 2:
         raise TranslationError(f"{fn.name}: signature changed")
     r = _single_return(fn, fn.name)
-    if isinstance(r, ast.Call) and isinstance(r.func, ast.Name) and r.func.id in QUANT:
+    if isinstance(r, ast.Call) and _sym(r.func) in QUANT:
         args = _call_args(r, ["left", "right"])
         if _is_name(args[0], ps[0]) and _is_name(args[1], ps[1]):
-            return QUANT[r.func.id]
+            return QUANT[_sym(r.func)]
     raise TranslationError(f"{fn.name}: unsupported {ast.unparse(r)}")
 
 
 def _comparator_call(r: ast.expr, what: str) -> Optional[List[ast.expr]]:
-    if isinstance(r, ast.Call) and _is_name(r.func, "Comparator"):
+    if isinstance(r, ast.Call) and _sym(r.func) == "Comparator":
         args = _call_args(r, ["left", "right", "operation"])
-        if ast.unparse(args[2]) != "operator.contains":
+        if ast.unparse(args[2]) != "operator.contains" or not _OPERATOR_IS_MODULE:
             raise TranslationError(f"{what}: operation is {ast.unparse(args[2])}")
         return args[:2]
     return None
@@ -634,6 +667,32 @@ def _comparator_invert(cls, pos, stmts, classes, where) -> str:
     return ".opTable [" + ", ".join(f"({OPS[k]}, {OPS[v]})" for k, v in pairs) + "]"
 
 
+def translate_dunder(classes, name: str) -> str:
+    """`SymbolicExpression.__and__` / `__or__`: `return OP(self, other)`; no other class of the hierarchy may define it"""
+    for c in classes.values():
+        if c.name != "SymbolicExpression" and any(
+                isinstance(s, (ast.FunctionDef, ast.AsyncFunctionDef)) and s.name in (name, name.replace("__", "__r", 1))
+                or isinstance(s, (ast.Assign, ast.AnnAssign)) and any(
+                    _is_name(t, name) for t in (s.targets if isinstance(s, ast.Assign) else [s.target]))
+                for s in c.body) and "SymbolicExpression" in mro(c.name, classes):
+            raise TranslationError(f"{c.name} overrides {name}")
+    base = classes.get("SymbolicExpression")
+    if base is None:
+        raise TranslationError("class SymbolicExpression not found")
+    fns = [s for s in base.body if isinstance(s, ast.FunctionDef) and s.name == name]
+    if len(fns) != 1 or fns[0].decorator_list:
+        raise TranslationError(f"SymbolicExpression.{name} not found / defined twice / decorated")
+    ps = _params(fns[0])
+    if len(ps) != 2:
+        raise TranslationError(f"SymbolicExpression.{name}: signature changed")
+    r = _single_return(fns[0], name)
+    if isinstance(r, ast.Call) and isinstance(r.func, ast.Name) and r.func.id in BIN_OPS:
+        a = _call_args(r, ["left", "right"])
+        if _is_name(a[0], ps[0]) and _is_name(a[1], ps[1]):
+            return BIN_OPS[r.func.id]
+    raise TranslationError(f"SymbolicExpression.{name}: unsupported {ast.unparse(r)}")
+
+
 def translate_inverts(classes) -> Dict[str, str]:
     out = {}
     out["invComparator"] = _rule_from("Comparator", 0, classes)
@@ -652,12 +711,12 @@ def translate_inverts(classes) -> Dict[str, str]:
 
 # ------------------------------------------------------------------------------------------------ assembly
 
-FIELDS = ["fold", "andOp", "orOp", "notInverts", "existsCtor", "forAllCtor", "containsSwapped", "inSwapped",
+FIELDS = ["fold", "andOp", "orOp", "ampOp", "barOp", "notInverts", "existsCtor", "forAllCtor", "containsSwapped", "inSwapped",
           "invComparator", "invTerm", "invAnd", "invElseIf", "invUnion", "invNot", "invExists", "invForAll"]
 
 EXPECTED = {
     "orRule": dict(dropLitL="true", dropLitR="true", test=".setEq", thenNode=".elseIf", elseNode=".union"),
-    "fold": ".leftNested", "andOp": ".and", "orOp": ".optOr", "notInverts": "true", "existsCtor": ".exists_",
+    "fold": ".leftNested", "andOp": ".and", "orOp": ".optOr", "ampOp": ".and", "barOp": ".optOr", "notInverts": "true", "existsCtor": ".exists_",
     "forAllCtor": ".forAll", "containsSwapped": "false", "inSwapped": "false", "invComparator": ".wrapNot",
     "invTerm": ".wrapNot", "invAnd": ".wrapNot", "invElseIf": ".wrapNot", "invUnion": ".wrapNot", "invNot": ".wrapNot",
     "invExists": ".quant .forAll true", "invForAll": ".quant .exists_ true",
@@ -693,15 +752,29 @@ def table(symbolic_src: str, entity_src: str) -> Dict[str, object]:
                 for n in ast.walk(t):
                     if isinstance(n, ast.Name) and n.id in names:
                         raise TranslationError(f"{where}: {n.id} is re-bound at module level")
+            if isinstance(s, (ast.Import, ast.ImportFrom)):
+                for a in s.names:
+                    if (a.asname or a.name).split(".")[0] in names:
+                        raise TranslationError(f"{where}: {a.asname or a.name} is bound by an import")
         defs = [s.name for s in tree.body if isinstance(s, (ast.FunctionDef, ast.ClassDef, ast.AsyncFunctionDef))]
         for n in names:
             if defs.count(n) > 1:
                 raise TranslationError(f"{where}: {n} is defined more than once")
+    global _IMPORTS, _OPERATOR_IS_MODULE
+    _IMPORTS = entity_imports(ent)
+    _OPERATOR_IS_MODULE = all(
+        any(isinstance(s, ast.Import) and any(a.name == "operator" and a.asname is None for a in s.names) for s in tr.body)
+        and not any(isinstance(s, ast.ImportFrom) and any((a.asname or a.name) == "operator" for a in s.names) for s in tr.body)
+        for tr in (sym, ent))
+    if not _OPERATOR_IS_MODULE:
+        raise TranslationError("`operator` is not the standard module in symbolic.py / entity.py")
     t: Dict[str, object] = {}
     t["orRule"] = translate_optimize_or(sf["optimize_or"])
     t["fold"] = translate_chained_logic(sf["chained_logic"])
     t["andOp"] = translate_chain_user(ef["and_"])
     t["orOp"] = translate_chain_user(ef["or_"])
+    t["ampOp"] = translate_dunder(sc, "__and__")
+    t["barOp"] = translate_dunder(sc, "__or__")
     t["notInverts"] = translate_not(ef["not_"])
     t["existsCtor"] = translate_quantifier_fn(ef["exists"])
     t["forAllCtor"] = translate_quantifier_fn(ef["for_all"])
